@@ -57,7 +57,9 @@ class EndpointParameterProcessor:
                 base_param_name = param_name_sanitized
                 suffix = 2
                 while param_name_sanitized in taken_names:
-                    param_name_sanitized = f"{base_param_name}_{suffix}"
+                    # The generators sanitise the name again (`id__2` would become `id_2` there and could
+                    # meet a real `id_2`), so probe with the name in the form it will finally have
+                    param_name_sanitized = NameSanitizer.sanitize_method_name(f"{base_param_name}_{suffix}")
                     suffix += 1
             param_info = {
                 "name": param_name_sanitized,
